@@ -979,6 +979,36 @@ pub(crate) fn restore_replay_base<P: ProvenanceStore>(
             });
         }
 
+        // The root checks above say nothing about the checkpoint's replay metadata (two ticks can share a
+        // graph): it must describe exactly `worldline_tick` committed ticks ending in the commit recorded
+        // at that coordinate, otherwise the restored state carries a foreign commit chain / tick.
+        let checkpoint_tick = checkpoint.checkpoint.worldline_tick;
+        if checkpoint.state.tick_history.len() as u64 != checkpoint_tick.as_u64() {
+            return Err(ReplayError::History(
+                HistoryError::CheckpointReplayMetadataMismatch {
+                    tick: checkpoint_tick,
+                    field: "tick_history_len",
+                },
+            ));
+        }
+        if let Some(commit_tick) = checkpoint_tick.checked_sub(1) {
+            let expected_commit_hash = provenance
+                .entry(worldline_id, commit_tick)?
+                .expected
+                .commit_hash;
+            match checkpoint.state.tick_history.last() {
+                Some((snapshot, _, _)) if snapshot.hash == expected_commit_hash => {}
+                _ => {
+                    return Err(ReplayError::History(
+                        HistoryError::CheckpointReplayMetadataMismatch {
+                            tick: checkpoint_tick,
+                            field: "tick_history.snapshot",
+                        },
+                    ));
+                }
+            }
+        }
+
         return Ok((checkpoint.state, checkpoint.checkpoint.worldline_tick));
     }
 
@@ -1001,6 +1031,39 @@ pub(crate) fn advance_replay_state<P: ProvenanceStore>(
     for raw_tick in start_tick.as_u64()..target_tick.as_u64() {
         let tick = WorldlineTick::from_raw(raw_tick);
         let entry = provenance.entry(worldline_id, tick)?;
+        // The entry served for (worldline, tick) must BE that coordinate, and a non-genesis entry must name
+        // the commit replayed just before it as a parent: the per-entry hashes below only tie an entry to
+        // itself, so without these checks a swapped / duplicated / transplanted entry whose patch still
+        // applies verifies as if it belonged here.
+        if entry.worldline_id != worldline_id {
+            return Err(ReplayError::History(HistoryError::EntryWorldlineMismatch {
+                expected: worldline_id,
+                got: entry.worldline_id,
+            }));
+        }
+        if entry.worldline_tick != tick {
+            return Err(ReplayError::History(HistoryError::TickGap {
+                expected: tick,
+                got: entry.worldline_tick,
+            }));
+        }
+        if let Some((previous, _, _)) = replayed.tick_history.last() {
+            let previous_ref = ProvenanceRef {
+                worldline_id,
+                worldline_tick: WorldlineTick::from_raw(raw_tick.saturating_sub(1)),
+                commit_hash: previous.hash,
+            };
+            if !entry
+                .parents
+                .iter()
+                .any(|parent| parent.commit_hash == previous.hash)
+            {
+                return Err(ReplayError::History(HistoryError::MissingParentRef {
+                    tick,
+                    parent: previous_ref,
+                }));
+            }
+        }
         let patch = entry
             .patch
             .as_ref()
